@@ -123,7 +123,8 @@ pub fn tiny_trace(out: &mut Out, rng: &mut Rng, num_counters: usize, ops: usize)
     let s = t.snapshot();
     out.line(&format!("# tiny num_counters={}", num_counters));
     out.line(&format!(
-        "tiny.init width={} mask={} seeds={} exp={} k={} samples={}",
+        "tiny.init num_counters={} width={} mask={} seeds={} exp={} k={} samples={}",
+        num_counters,
         s.rows.get(0).map_or(0, |r| r.len()),
         s.mask,
         csv(&s.seeds),
